@@ -35,8 +35,18 @@ type clH struct {
 	pos    []clPos
 	feeIn  map[string]*big.Int // fee account inflow per pool/denom (from balance deltas)
 	lastErr string
+	fp      *clForcedPos // directed script: next createPosition uses these values
+	fs      string       // directed script: next swap is "tofee" (base in, lands on the next tick, pool fee on) or ""
+	lastToTick bool // the previous swap was aimed exactly at the next initialised tick
+	lastDir    int
+	dustDir    int  // ≥ 0: the next swap is a dust swap in this direction
 	poolMin map[uint64]sdkmath.LegacyDec // smallest sqrt price seen in the pool: current price after every operation, tick prices of every stored tick
 	spCache map[string]sdkmath.LegacyDec
+}
+
+type clForcedPos struct {
+	lo, hi int64
+	ab, aq sdkmath.Int
 }
 
 func accName(i int) string { return fmt.Sprintf("a%d", i) }
@@ -343,7 +353,7 @@ func suiteCL(e *Env) {
 			e.Obs("setup-error %v", err)
 			return
 		}
-		h := &clH{e: e, c: c, denoms: map[uint64][2]string{}, feeIn: map[string]*big.Int{}}
+		h := &clH{e: e, c: c, denoms: map[uint64][2]string{}, feeIn: map[string]*big.Int{}, dustDir: -1}
 		var sb strings.Builder
 		for i, a := range c.Accs {
 			fmt.Fprintf(&sb, " a%d=uaaa:%s,ubbb:%s,uccc:%s,urise:%s", i, c.Bal(a.Addr, "uaaa"), c.Bal(a.Addr, "ubbb"), c.Bal(a.Addr, "uccc"), c.Bal(a.Addr, "urise"))
@@ -352,7 +362,11 @@ func suiteCL(e *Env) {
 		npools := 1 + e.R.N(2)
 		for pi := 0; pi < npools; pi++ {
 			fee, ratio, off := feeRates[e.R.N(len(feeRates))], ratios[e.R.N(len(ratios))], offsets[e.R.N(len(offsets))]
-			if e.R.N(12) == 0 {
+			scripted := hi%6 == 0 && pi == 0
+			if scripted {
+				fee, ratio, off = "0.01", "1.0001", "0.5"
+			}
+			if !scripted && e.R.N(12) == 0 {
 				// invalid parameters (rejected since MsgCreatePool validates them)
 				switch e.R.N(4) {
 				case 0:
@@ -385,6 +399,9 @@ func suiteCL(e *Env) {
 		}
 		if len(h.pools) == 0 {
 			continue
+		}
+		if hi%6 == 0 {
+			h.tickLandingScript(h.pools[0])
 		}
 		nops := 14 + e.R.N(18)
 		if e.Tier == "thorough" {
@@ -438,6 +455,12 @@ func (h *clH) createPosition(pool uint64) {
 		lo, hi = hi, lo // invalid order
 	}
 	ab, aq := h.amount(20), h.amount(20)
+	if e.R.N(6) == 0 {
+		// deep liquidity (18-decimals tokens): a remainder of a few units then no longer moves the 18-digit sqrt price
+		d := 22 + e.R.N(6)
+		ab, aq = sdkmath.NewIntFromBigInt(new(big.Int).Exp(big.NewInt(10), big.NewInt(int64(d)), nil)).MulRaw(int64(1+e.R.N(9))), sdkmath.NewIntFromBigInt(new(big.Int).Exp(big.NewInt(10), big.NewInt(int64(d)), nil)).MulRaw(int64(1+e.R.N(9)))
+		e.Stat("position.deep")
+	}
 	if e.R.N(10) == 0 {
 		ab = sdkmath.ZeroInt()
 	}
@@ -447,6 +470,10 @@ func (h *clH) createPosition(pool uint64) {
 	minB, minQ := sdkmath.ZeroInt(), sdkmath.ZeroInt()
 	if e.R.N(12) == 0 {
 		minB = ab // often unreachable
+	}
+	if h.fp != nil {
+		lo, hi, ab, aq, minB = h.fp.lo, h.fp.hi, h.fp.ab, h.fp.aq, sdkmath.ZeroInt()
+		h.fp = nil
 	}
 	e.In("createPosition %s %d %d %d %s %s %s %s %s %s", accName(who), pool, lo, hi, d[0], ab, d[1], aq, minB, minQ)
 	resp, err, p := c.Exec(&lptypes.MsgCreatePosition{Sender: c.Accs[who].Addr.String(), PoolId: pool, LowerTick: lo, UpperTick: hi,
@@ -481,6 +508,35 @@ func (h *clH) createPosition(pool uint64) {
 	}
 }
 
+// tickLandingScript: two nested deep positions, then a base-in swap with the pool fee whose net part reaches the inner
+// position's lower tick exactly (the few units left are consumed by a zero-progress step AFTER the crossing), then dust swaps
+// on the pool resting on the crossed tick.  Every bookkeeping convention around a crossing is visible in the dumps.
+func (h *clH) tickLandingScript(pool uint64) {
+	e := h.e
+	deep := func() sdkmath.Int {
+		return sdkmath.NewIntFromBigInt(new(big.Int).Exp(big.NewInt(10), big.NewInt(int64(22+e.R.N(4))), nil)).MulRaw(int64(1 + e.R.N(9)))
+	}
+	w := int64(5 + e.R.N(20))
+	a := deep()
+	h.fp = &clForcedPos{-w, w, a, a}
+	h.createPosition(pool)
+	h.dump(pool)
+	b := deep()
+	h.fp = &clForcedPos{-5 * w, 5 * w, b, b}
+	h.createPosition(pool)
+	h.dump(pool)
+	h.fs = "tofee"
+	h.swap(pool)
+	h.dump(pool)
+	for k := 0; k < 2; k++ {
+		h.dustDir = 0
+		h.swap(pool)
+		h.dustDir = -1
+		h.dump(pool)
+	}
+	e.Stat("script.tick_landing")
+}
+
 func (h *clH) poolLiq(pool uint64) sdkmath.LegacyDec {
 	p, _, _ := h.c.App.LiquiditypoolKeeper.GetPool(h.c.Ctx(), pool)
 	return sdkmath.LegacyMustNewDecFromStr(p.CurrentTickLiquidity)
@@ -491,19 +547,42 @@ func (h *clH) swap(pool uint64) {
 	d := h.denoms[pool]
 	who := e.R.N(len(c.Accs))
 	dir := e.R.N(2)
-	din, dout := d[dir], d[1-dir]
 	fe := e.R.N(5) > 0
 	amt := h.amount(1 + e.R.N(22))
+	dust := h.dustDir >= 0
+	if dust {
+		dir, fe, amt = h.dustDir, e.R.N(4) > 0, sdkmath.NewInt(int64(1+e.R.N(3)))
+		e.Stat("swap.dust_after_tick")
+	}
+	din, dout := d[dir], d[1-dir]
 	k := c.App.LiquiditypoolKeeper
-	if e.R.N(4) == 0 {
+	forced := h.fs == "tofee"
+	if forced {
+		dir, din, dout = 0, d[0], d[1]
+		h.fs = ""
+	}
+	h.lastToTick, h.lastDir = false, dir
+	if !dust && (forced || e.R.N(4) == 0) {
 		// land exactly on the next initialised tick in the direction of the trade (no fee): the step reaches its target with
 		// nothing left, so the crossing conventions (cursor t-1 / t, ±net) are what the next operation sees
 		if a, ok := h.amountToNextTick(pool, dir == 0); ok {
 			amt, fe = a, false
-			if e.R.N(3) == 0 {
+			if !forced && e.R.N(3) == 0 {
 				amt = amt.AddRaw(int64(e.R.N(3)) - 1) // one unit short of / beyond the tick
 			}
+			if forced || e.R.N(2) == 0 {
+				// with the pool fee: the gross amount whose net part just reaches the tick; the few units left over are consumed
+				// by a zero-progress step AFTER the crossing
+				if pl, found, _ := k.GetPool(c.Ctx(), pool); found {
+					if fr, err := sdkmath.LegacyNewDecFromStr(pl.FeeRate); err == nil && fr.IsPositive() && fr.LT(sdkmath.LegacyOneDec()) {
+						amt = sdkmath.LegacyNewDecFromInt(a).Quo(sdkmath.LegacyOneDec().Sub(fr)).Ceil().TruncateInt().AddRaw(int64(e.R.N(3)))
+						fe = true
+						e.Stat("swap.to_next_tick_with_fee")
+					}
+				}
+			}
 			e.Stat("swap.to_next_tick")
+			h.lastToTick = true
 		}
 	}
 	feB := "0"
@@ -747,6 +826,12 @@ func (h *clH) step() {
 		h.createPosition(pool)
 	case r < 55:
 		h.swap(pool)
+		if h.lastToTick && e.R.N(2) == 0 {
+			// a dust-sized swap in the same direction on a pool resting exactly on a crossed tick (zero-progress step)
+			h.dustDir = h.lastDir
+			h.swap(pool)
+			h.dustDir = -1
+		}
 	case r < 67:
 		q := live[e.R.N(len(live))]
 		who := q.owner
